@@ -18,14 +18,15 @@ import ovl_replay as R
 import pool
 
 
-ACTIONS = ("ArityOk", "ArityFail", "ArgBindsT", "ArgOk", "ArgFail", "ResultOk", "ResultFail")
+ACTIONS = ("ArityOk", "ArityFail", "ArgBindsT", "ArgOk", "ArgFail", "ResultOk", "ResultFail", "OuterOk", "OuterFail")
 
 
 def spec_verdicts(ctx, cases, coverage=False):
     pin = os.path.join(ctx.workdir, "overload_in.json")
     fn = lambda v: {"k": "fn", "ps": v["ps"], "ret": v["ret"]}
     json.dump([{"id": c["id"], "vs": [{"k": "set", "vs": [fn(w) for w in v["vs"]]} if v["k"] == "set" else fn(v) for v in c["vs"]],
-                "args": c["args"], "mode": c["mode"]} for c in cases], open(pin, "w"))
+                "args": c["args"], "mode": c["mode"], "os": [{"p": o["p"], "ret": o["ret"]} for o in c.get("os", [])],
+                "omode": c.get("omode", "synth")} for c in cases], open(pin, "w"))
     r = ctx.tlc("Overload", env={"VERIF_IN": pin}, timeout=3000, coverage=coverage)
     if coverage:  # vacuity guard: every step of the resolution algorithm is exercised
         never = [a for a in ACTIONS if r.coverage.get(a, (0, 0))[1] == 0]
@@ -53,6 +54,7 @@ def build_cases(ctx):
     cases += G.fallthrough_family(rng, ctx.pick(1200, 3000))
     n_ft = len(cases) - n_ex
     cases += G.nested_family(rng, ctx.pick(500, None))  # a variant that is itself an overloaded function
+    cases += G.outer_family(rng, ctx.pick(600, 4000))   # the overloaded call is the argument of another overloaded call
     for _ in range(ctx.pick(1000, 6000)):
         cases.append(G.random_case(rng))
     seen, out = set(), []
@@ -68,17 +70,34 @@ def build_cases(ctx):
 
 
 def replay_cases(cases, verdicts):
-    jobs = [{"id": c["id"], "src": c["src"], "leaves": [n for n, _ in G.leaves(c)], "pick": pick_name(verdicts[c["id"]]),
-             "runnable": {n: not w["decl"] for n, w in G.leaves(c)}, "args": G.MAIN_ARGS} for c in cases]
+    jobs = []
+    for c in cases:
+        v = verdicts[c["id"]]
+        runnable = {n: not w["decl"] for n, w in G.leaves(c)}
+        runnable.update({f"w{k}": not o["decl"] for k, o in enumerate(c.get("os", []), 1)})
+        jobs.append({"id": c["id"], "src": c["src"], "leaves": [n for n, _ in G.leaves(c)], "pick": pick_name(v),
+                     "runnable": runnable, "args": G.MAIN_ARGS, "outer": bool(c.get("os")),
+                     "compose": [[k, leaf_name(e["leaf"])] for k, e in enumerate(v.get("ocomp") or [], 1) if e["leaf"][0]]})
     pool._init()
     return pool.map_jobs(R.replay_job, jobs, chunksize=16)
 
 
+def leaf_name(pair):
+    return f"v{pair[0]}" + (f"_{pair[1]}" if pair[1] else "")
+
+
 def pick_name(v):
-    """Name of the function the spec resolves the call to (None = reject)."""
+    """Name of the function the spec resolves the call to (None = reject); for a nested call h(f(..)):
+    "<outer variant>_<inner function>"."""
     if not v["pick"]:
         return None
-    return f"v{v['pick']}" + (f"_{v['ipick']}" if v["ipick"] else "")
+    leaf = leaf_name([v["pick"], v["ipick"]])
+    return f"{v['opick']}_{leaf}" if v.get("opick") else leaf
+
+
+def expected_callees(v):
+    leaf = leaf_name([v["pick"], v["ipick"]])
+    return sorted([leaf, f"w{v['opick']}"]) if v.get("opick") else [leaf]
 
 
 def judge(case, v, res):
@@ -100,6 +119,15 @@ def judge(case, v, res):
             raise lib.Machinery(
                 f"spec model of a direct call disagrees with /repo (coercion rules, C16 territory): case {case['id']} "
                 f"function {name} spec accepts={acc}, code {d}\n{case['src']}")
+    # 0b. nested call: the composition w<k>(<inner function the spec resolves to under w<k>'s parameter>(args))
+    for k, e in enumerate(v.get("ocomp") or [], 1):
+        if e["leaf"][0]:
+            d = res["c"][f"{k}_{leaf_name(e['leaf'])}"]
+            if d["status"] == "crash":
+                out.append(("crash-direct", f"direct composition w{k}({leaf_name(e['leaf'])}(...)) crashed the checker: {d}"))
+            elif (d["status"] == "ok") != e["acc"]:
+                raise lib.Machinery(f"spec model of the direct composition w{k}({leaf_name(e['leaf'])}(...)) disagrees with /repo: "
+                                    f"case {case['id']} spec accepts={e['acc']}, code {d}\n{case['src']}")
     o = res["o"]
     pick = pick_name(v)
     trail = "+".join(f"{t['at']}{'~co' if t['co'] else ''}" for t in v["trail"]) or "none"
@@ -107,6 +135,14 @@ def judge(case, v, res):
     # (a nested set that matched nothing synthesises the types of all arguments for its error message)
     relit = any(t["at"] in ("arg", "result", "set") and any(a == "lpos" for a in case["args"][:t["pos"] - 1]) for t in v["trail"])
     ctxs = "int-literal-already-checked-by-abandoned-variant" if relit else f"prior={trail}"
+    if case.get("os"):  # h(f(args)): was the inner call checked (and did it fail as a whole) for an earlier outer variant?
+        if any(t["at"] == "oresult" for t in v["trail"]) and "lpos" in case["args"]:
+            # the inner call (with an int literal) had resolved successfully for an outer variant that was then abandoned
+            ctxs = "nested-call-int-literal-resolved-for-abandoned-outer-variant"
+        elif any(t["at"] == "oinner" for t in v["trail"]):
+            ctxs = "nested-call-after-failed-inner-call"
+        else:
+            ctxs = "nested-call"
     if o["status"] == "crash":
         out.append((f"crash|{ctxs}", f"checking the overloaded call crashed: {o}"))
         return out
@@ -125,8 +161,9 @@ def judge(case, v, res):
     if orun["status"] != "ok":
         out.append((f"{orun['status']}|{ctxs}", f"accepted overloaded call does not compile/validate: {orun.get('error')}"))
         return out
-    if orun["callees"] != [pick]:
-        out.append((f"wrong-variant|{ctxs}", f"expected {pick}, call linked to {orun['callees']}"))
+    exp_callees = expected_callees(v)
+    if orun["callees"] != exp_callees:
+        out.append((f"wrong-variant|{ctxs}", f"expected {exp_callees}, call linked to {orun['callees']}"))
     drun = res["d_run"].get(pick)
     if drun is None or drun["status"] != "ok":
         out.append((f"direct-call-broken|{ctxs}", f"direct call of {pick}: {drun}"))
@@ -134,7 +171,7 @@ def judge(case, v, res):
     for side, rr in (("overloaded", orun), ("direct", drun)):
         if rr.get("end") in ("unsupported", "interp_error", "budget"):
             raise lib.Machinery(f"interpreter: {rr.get('end')} {rr.get('msg')} on case {case['id']} ({side})")
-    if "events" in drun and orun["callees"] == [pick]:
+    if "events" in drun and orun["callees"] == exp_callees:
         if orun.get("events") != drun["events"] or orun.get("end") != drun.get("end"):
             out.append((f"behaviour-differs|{ctxs}", f"events of overloaded call {orun.get('events')} != direct call of {pick} {drun['events']}"))
     return out
@@ -149,7 +186,8 @@ def run(ctx):
     results = replay_cases(cases, verdicts)
     ctx.log("replay done")
     groups, tally = {}, {"pick": 0, "reject": 0, "late_fail": 0, "late_fail_after_coercion": 0, "events_compared": 0,
-                         "declared_pick": 0, "pick_not_first": 0, "with_nested_set": 0, "pick_inside_nested_set": 0,
+                         "declared_pick": 0, "pick_not_first": 0, "with_nested_set": 0, "pick_inside_nested_set": 0, "nested_call": 0,
+                         "nested_call_outer_fails_on_inner_then_later_outer_picks": 0, "nested_call_inner_pick_differs_per_outer": 0,
                          "nested_set_exhausted_then_pick": 0}
     for c, res in zip(cases, results):
         v = verdicts[c["id"]]
@@ -162,7 +200,10 @@ def run(ctx):
         tally["with_nested_set"] += any(x["k"] == "set" for x in c["vs"])
         tally["pick_inside_nested_set"] += bool(v["ipick"])
         tally["nested_set_exhausted_then_pick"] += bool(pn) and any(t["at"] == "set" for t in v["trail"])
-        if pn and dict(G.leaves(c))[pn]["decl"]:
+        tally["nested_call"] += bool(c.get("os"))
+        tally["nested_call_outer_fails_on_inner_then_later_outer_picks"] += bool(pn) and any(t["at"] == "oinner" for t in v["trail"])
+        tally["nested_call_inner_pick_differs_per_outer"] += len({tuple(e["leaf"]) for e in v.get("ocomp") or [] if e["leaf"][0]}) > 1
+        if pn and dict(G.leaves(c))[pn.split("_", 1)[1] if c.get("os") else pn]["decl"]:
             tally["declared_pick"] += 1
         if pn and "events" in res.get("d_run", {}).get(pn, {}):
             tally["events_compared"] += 1
@@ -173,10 +214,13 @@ def run(ctx):
         _, c, v, res, text = items[0]
         sig = lambda x: ("overload(" + ", ".join(sig(w) for w in x["vs"]) + ")") if x["k"] == "set" else "(" + ", ".join(x["ps"]) + ") -> " + x["ret"]
         ctx.violation(cls, f"{len(items)} cases; smallest: overload({', '.join(sig(x) for x in c['vs'])}) "
-                      f"called with ({', '.join(G.ARG_SRC[a] for a in c['args'])}), mode {c['mode']}: {text}",
-                      {"cases": [{"case": {k: t[1][k] for k in ("vs", "args", "mode")}, "spec": t[2], "code": t[3]} for t in items[:8]]})
+                      f"called with ({', '.join(G.ARG_SRC[a] for a in c['args'])}), mode {c['mode']}"
+                      + (f", as argument of overload({', '.join('(' + o['p'] + ') -> ' + o['ret'] for o in c['os'])}), outer mode {c['omode']}" if c.get("os") else "")
+                      + f": {text}",
+                      {"cases": [{"case": {k: t[1][k] for k in ("vs", "args", "mode", "os", "omode") if k in t[1]}, "spec": t[2], "code": t[3]} for t in items[:8]]})
     if not ctx.violations and (tally["late_fail_after_coercion"] == 0 or tally["pick_not_first"] == 0 or tally["reject"] == 0
-                               or tally["pick_inside_nested_set"] == 0):
+                               or tally["pick_inside_nested_set"] == 0
+                               or tally["nested_call_outer_fails_on_inner_then_later_outer_picks"] == 0):
         raise lib.Machinery(f"vacuous campaign: {tally}")
     nontrivial = sum(1 for c in cases if verdicts[c["id"]]["trail"])
     ctx.coverage.update({
@@ -187,6 +231,8 @@ def run(ctx):
         "exhaustive": False,
         "exhaustive_part": f"{n_ex} cases: all 2-variant sets of arity <= 1 x all argument lists of arity <= 1 x modes synth/int/float",
         "forced_fallthrough_cases": n_ft,
+        "nested_call_family": "h(f(args)): outer set over parameter types float/bool/int/nat/T applied to an inner overloaded call with "
+                              "literal / variable arguments (quick 600, thorough 4000 of 56 000)",
         "nested_overload_family": "outer sets [A, overload(w1, w2), B] in varying order, arity 1-2 (quick 500, thorough all 1056)",
         "tally": tally,
         "samples": [{"vs": c["vs"], "args": c["args"], "mode": c["mode"], "spec_pick": pick_name(verdicts[c["id"]])}
@@ -216,7 +262,7 @@ def replay(ctx, data):
 def selftest(ctx):
     rng = random.Random(3)
     cases = []
-    for c in G.small_exhaustive()[::7] + G.fallthrough_family(rng, 60) + G.nested_family(rng, 40):
+    for c in G.small_exhaustive()[::7] + G.fallthrough_family(rng, 60) + G.nested_family(rng, 40) + G.outer_family(rng, 60):
         c = dict(c, id=len(cases))
         c["src"] = G.render(c)
         cases.append(c)
@@ -231,7 +277,7 @@ def selftest(ctx):
         except lib.Machinery:
             raise
         if v["pick"]:
-            if judge(c, dict(v, pick=0, ipick=0), res):
+            if judge(c, dict(v, pick=0, ipick=0, opick=0), res):
                 flagged["flip-to-reject"] += 1
             other = 1 if v["pick"] != 1 else 2
             v2 = dict(v, pick=other, ipick=1 if c["vs"][other - 1]["k"] == "set" else 0,
